@@ -191,6 +191,24 @@ char *ut_strdup(const char *str)
     return p;
 }
 
+/* TRUSTED(common/util.c:77-84 over strndup): copy of at most n bytes, NUL-terminated, in a block of exactly len+1 bytes */
+char *ut_strndup(const char *str, size_t n)
+{
+    size_t l = 0;
+    if (l < n && str[l] != 0) l++;
+    if (l == 1 && l < n && str[l] != 0) l++;
+    if (l == 2 && l < n && str[l] != 0) l++;
+    __CPROVER_assert(l == n || str[l] == 0, "bound of the unit: strings duplicated are shorter than XV_STR_MAX");
+    __CPROVER_assume(l == n || str[l] == 0);
+    char *p = xv_str_alloc(l);
+    xv_heap_live++;
+    if (l >= 1) p[0] = str[0];
+    if (l >= 2) p[1] = str[1];
+    if (l >= 3) p[2] = str[2];
+    p[l] = 0;
+    return p;
+}
+
 /* ---- logging helpers that ctx_store.c runs UNCONDITIONALLY (the LOG_TLS_CTX_* macros format into local buffers before
  * log_debug_sock() tests log_is_enabled()): snprintf (through prelude.h's macro xv_snprintf), hash_description,
  * log_tls_get_error_stack, ut_aprintf (variadic: the unit header routes it to xv_aprintf(buf, capacity)).
@@ -222,11 +240,12 @@ int xv_snprintf(char *s, size_t size)
         xv_text_any(s, size);
     return r;
 }
-/* TRUSTED(libxcm/tp/tls/log_tls.c:14-20): "xx:" per hash byte, the last ':' replaced by NUL: 3 * hash_len bytes */
+/* TRUSTED(libxcm/tp/tls/log_tls.c:14-20): snprintf(buf + 3 * i, 4, "%02x:") per hash byte, then the last ':' replaced by NUL:
+ * bytes 0 .. 3 * hash_len of buf are written */
 void hash_description(uint8_t *hash, size_t hash_len, char *buf)
 {
     __CPROVER_assert(hash_len >= 1 && __CPROVER_r_ok(hash, hash_len), "hash_description: hash readable");
-    xv_text_any(buf, hash_len * 3);
+    xv_text_any(buf, hash_len * 3 + 1);
 }
 /* TRUSTED(libxcm/tp/tls/log_tls.c:22-29) */
 void log_tls_get_error_stack(char *buf, size_t capacity) { xv_text_any(buf, capacity); }
@@ -260,7 +279,7 @@ ssize_t ut_load_text_file(const char *filename, char **data)
     return (ssize_t)n + 1;
 }
 
-#define XV_DG_MAX 96
+#define XV_DG_MAX 128
 #define XV_DG_CHUNK 8
 struct { uint8_t dg_log[XV_DG_MAX]; size_t dg_len; unsigned long dg_updates, stat_calls, lstat_calls; } xv_DG;   /* counters wrap: no range needed */
 #define xv_dg_log xv_DG.dg_log            /* digest input so far (since the last EVP_DigestInit_ex) */
@@ -347,12 +366,126 @@ void SSL_CTX_free(SSL_CTX *ctx)
     xv_ctxfree_calls++; xv_ctxfree_last = ctx; xv_ctx_live--; xv_ctx_dead = ctx;
 }
 
-/* ---- ghost: OpenSSL objects handed out and not yet given back (C08 leak oracle of load_ssl_ctx and its install_* helpers) */
-struct { long x509_live, crl_live, pkey_live, bio_live; } xv_OS;
+
+
+/* ---- TRUSTED(OpenSSL) the part of libssl/libcrypto that load_ssl_ctx and its install_* helpers call.
+ * Objects are opaque one-byte heap objects; ghost counters (group xv_OS) count what was handed out and not given back.
+ * ASSUMPTIONS (TRUSTED, not proved):
+ *  O1 SSL_CTX_new, BIO_new_mem_buf, EVP_MD_CTX_new do not fail (they fail on memory exhaustion only, which XCM answers
+ *     with abort() by design, as for ut_malloc)
+ *  O2 SSL_CTX_set_cipher_list / SSL_CTX_set_ciphersuites accept the two constant cipher strings of ctx_store.c (the real
+ *     code ut_asserts it)
+ *  O3 PEM_read_bio_* consume at least one byte of the BIO per object returned, so a BIO of n bytes yields at most n objects
+ *  O4 ownership: SSL_CTX_use_certificate/use_PrivateKey/X509_STORE_add_cert/add_crl take their own reference (the caller
+ *     still frees his); SSL_CTX_add0_chain_cert takes over the caller's reference if and only if it returns 1
+ * Everything else is nondeterministic: any parse may fail, any install may fail, the key check may fail. */
+struct { long x509_live, crl_live, pkey_live, bio_live; long bio_rem; unsigned long err_last; _Bool used_cert, used_key, key_checked; long tc_added, crl_added; } xv_OS;
 #define xv_x509_live xv_OS.x509_live
 #define xv_crl_live xv_OS.crl_live
 #define xv_pkey_live xv_OS.pkey_live
 #define xv_bio_live xv_OS.bio_live
+#define xv_bio_rem xv_OS.bio_rem          /* bytes not yet consumed of the (one) memory BIO being read */
+#define xv_err_last xv_OS.err_last        /* what ERR_peek_last_error() reports */
+#define xv_ssl_used_cert xv_OS.used_cert  /* SSL_CTX_use_certificate returned 1 for the context being built */
+#define xv_ssl_used_key xv_OS.used_key
+#define xv_ssl_key_checked xv_OS.key_checked
+#define xv_tc_added xv_OS.tc_added
+#define xv_crl_added xv_OS.crl_added
+unsigned long nondet_ulong(void);
+static char xv_method_obj, xv_store_obj;
+const SSL_METHOD *TLS_method(void) { return nondet_bool() ? (const SSL_METHOD *)&xv_method_obj : NULL; }
+SSL_CTX *SSL_CTX_new(const SSL_METHOD *meth)
+{
+    __CPROVER_assert(meth != NULL, "SSL_CTX_new: method");
+    xv_ctx_live++; xv_ssl_used_cert = 0; xv_ssl_used_key = 0; xv_ssl_key_checked = 0; xv_tc_added = 0; xv_crl_added = 0;
+    return xv_ctx_any();
+}
+#define XV_CTX_USE(ctx, what) __CPROVER_assert((ctx) != NULL && (const SSL_CTX *)(ctx) != xv_ctx_dead, "PO[C08] " what ": context is live (not freed)")
+uint64_t SSL_CTX_set_options(SSL_CTX *ctx, uint64_t op) { XV_CTX_USE(ctx, "SSL_CTX_set_options"); return op; }
+uint64_t SSL_CTX_clear_options(SSL_CTX *ctx, uint64_t op) { XV_CTX_USE(ctx, "SSL_CTX_clear_options"); return 0; }
+int SSL_CTX_set_cipher_list(SSL_CTX *ctx, const char *str) { XV_CTX_USE(ctx, "SSL_CTX_set_cipher_list"); return 1; }
+int SSL_CTX_set_ciphersuites(SSL_CTX *ctx, const char *str) { XV_CTX_USE(ctx, "SSL_CTX_set_ciphersuites"); return 1; }
+X509_STORE *SSL_CTX_get_cert_store(const SSL_CTX *ctx) { XV_CTX_USE(ctx, "SSL_CTX_get_cert_store"); return (X509_STORE *)&xv_store_obj; }
+int SSL_CTX_use_certificate(SSL_CTX *ctx, X509 *x)
+{
+    XV_CTX_USE(ctx, "SSL_CTX_use_certificate");
+    __CPROVER_assert(__CPROVER_r_ok(x, 1), "SSL_CTX_use_certificate: live certificate");
+    if (nondet_bool()) return 0;
+    xv_ssl_used_cert = 1;
+    return 1;
+}
+int SSL_CTX_use_PrivateKey(SSL_CTX *ctx, EVP_PKEY *pkey)
+{
+    XV_CTX_USE(ctx, "SSL_CTX_use_PrivateKey");
+    __CPROVER_assert(__CPROVER_r_ok(pkey, 1), "SSL_CTX_use_PrivateKey: live key");
+    if (nondet_bool()) return 0;
+    xv_ssl_used_key = 1;
+    return 1;
+}
+int SSL_CTX_check_private_key(const SSL_CTX *ctx)
+{
+    XV_CTX_USE(ctx, "SSL_CTX_check_private_key");
+    if (nondet_bool()) return 0;
+    xv_ssl_key_checked = 1;
+    return 1;
+}
+long SSL_CTX_ctrl(SSL_CTX *ctx, int cmd, long larg, void *parg)
+{
+    XV_CTX_USE(ctx, "SSL_CTX_ctrl");
+    if (cmd == SSL_CTRL_CHAIN_CERT) {              /* SSL_CTX_add0_chain_cert */
+        __CPROVER_assert(larg == 0 && __CPROVER_r_ok(parg, 1), "SSL_CTX_add0_chain_cert: live certificate");
+        if (nondet_bool()) return 0;
+        xv_x509_live--;                            /* O4: the context owns it now */
+        return 1;
+    }
+    __CPROVER_assert(cmd == SSL_CTRL_SET_SESS_CACHE_MODE || cmd == SSL_CTRL_SET_READ_AHEAD, "SSL_CTX_ctrl: command modelled");
+    return 0;
+}
+int X509_STORE_add_cert(X509_STORE *st, X509 *x)
+{
+    __CPROVER_assert(st == (X509_STORE *)&xv_store_obj && __CPROVER_r_ok(x, 1), "X509_STORE_add_cert: store of the context, live certificate");
+    if (nondet_bool()) return 0;
+    xv_tc_added++;
+    return 1;
+}
+int X509_STORE_add_crl(X509_STORE *st, X509_CRL *x)
+{
+    __CPROVER_assert(st == (X509_STORE *)&xv_store_obj && __CPROVER_r_ok(x, 1), "X509_STORE_add_crl: store of the context, live CRL");
+    if (nondet_bool()) return 0;
+    xv_crl_added++;
+    return 1;
+}
+int X509_STORE_set_flags(X509_STORE *st, unsigned long flags) { __CPROVER_assert(st == (X509_STORE *)&xv_store_obj, "X509_STORE_set_flags: store of the context"); return 1; }
+BIO *BIO_new_mem_buf(const void *buf, int len)
+{
+    __CPROVER_assert(len >= 0 && (len == 0 || __CPROVER_r_ok(buf, (size_t)len)), "BIO_new_mem_buf: buffer readable over len");
+    char *p = malloc(1); __CPROVER_assume(p != NULL);
+    xv_bio_live++; xv_bio_rem = len;
+    return (BIO *)p;
+}
+int BIO_free(BIO *a) { if (a == NULL) return 0; xv_bio_live--; free(a); return 1; }
+/* one PEM object off the BIO: NULL (end of data or parse error: ERR_peek_last_error() then reports an arbitrary code) or an
+ * object, at least one byte consumed (O3) */
+static void *xv_pem_read(BIO *bp, long *live)
+{
+    __CPROVER_assert(__CPROVER_r_ok(bp, 1), "PEM_read_bio_*: live BIO");
+    if (xv_bio_rem <= 0 || nondet_bool()) { xv_err_last = nondet_ulong(); return NULL; }
+    long c = nondet_long();
+    __CPROVER_assume(c >= 1 && c <= xv_bio_rem);
+    xv_bio_rem -= c;
+    char *p = malloc(1); __CPROVER_assume(p != NULL);
+    (*live)++;
+    return p;
+}
+X509 *PEM_read_bio_X509(BIO *bp, X509 **x, pem_password_cb *cb, void *u) { return (X509 *)xv_pem_read(bp, &xv_x509_live); }
+X509 *PEM_read_bio_X509_AUX(BIO *bp, X509 **x, pem_password_cb *cb, void *u) { return (X509 *)xv_pem_read(bp, &xv_x509_live); }
+X509_CRL *PEM_read_bio_X509_CRL(BIO *bp, X509_CRL **x, pem_password_cb *cb, void *u) { return (X509_CRL *)xv_pem_read(bp, &xv_crl_live); }
+EVP_PKEY *PEM_read_bio_PrivateKey(BIO *bp, EVP_PKEY **x, pem_password_cb *cb, void *u) { return (EVP_PKEY *)xv_pem_read(bp, &xv_pkey_live); }
+void X509_free(X509 *a) { if (a != NULL) xv_x509_live--; free(a); }
+void X509_CRL_free(X509_CRL *a) { if (a != NULL) xv_crl_live--; free(a); }
+void EVP_PKEY_free(EVP_PKEY *a) { if (a != NULL) xv_pkey_live--; free(a); }
+unsigned long ERR_peek_last_error(void) { return xv_err_last; }
+void ERR_clear_error(void) { xv_err_last = 0; }
 
 /* ---- ghost: arguments and moment of the load_ssl_ctx call (recorded by its contract where it is a cut point) */
 struct { long calls; const char *cert, *key, *tc, *crl; long at_md; } xv_LSC;
@@ -396,6 +529,8 @@ static inline void xv_lk_ghost_havoc(void)
     xv_ld_res[0] = xv_ld_res[1] = xv_ld_res[2] = xv_ld_res[3] = NULL; xv_ldb_res[0] = xv_ldb_res[1] = xv_ldb_res[2] = xv_ldb_res[3] = NULL;
     xv_lsc_calls = nondet_long(); xv_lsc_cert = xv_lsc_key = xv_lsc_tc = xv_lsc_crl = NULL; xv_lsc_at_md = nondet_long();
     xv_x509_live = nondet_long(); xv_crl_live = nondet_long(); xv_pkey_live = nondet_long(); xv_bio_live = nondet_long();
+    xv_bio_rem = nondet_long(); xv_err_last = nondet_ulong(); xv_ssl_used_cert = nondet_bool(); xv_ssl_used_key = nondet_bool(); xv_ssl_key_checked = nondet_bool();
+    xv_tc_added = nondet_long(); xv_crl_added = nondet_long();
     xv_snprintf_ret = nondet_int(); xv_snprintf_cap = nondet_size_t(); xv_snprintf_calls = nondet_int();
     xv_heap_live = nondet_long(); xv_ld_calls = nondet_long(); xv_stat_calls = nondet_size_t(); xv_lstat_calls = nondet_size_t();
     xv_dg_len = nondet_size_t(); xv_dg_updates = nondet_size_t(); xv_mdctx_live = nondet_long();
@@ -420,6 +555,19 @@ static void xv_snap_take(struct xv_snap *s)
     if (c != NULL) { s->n = 3; s->e[2] = c; s->cnt[2] = c->use_cnt; s->ctx[2] = c->ssl_ctx; s->hj[2] = c->hash[j]; }
 }
 
+/* ghost comparison of two 32-byte hashes, four 64-bit words (loop-free; the callers have dereferenced the entries under
+ * CBMC's pointer checks already, the checks are switched off inside this helper only) */
+#pragma CPROVER check push
+#pragma CPROVER check disable "pointer"
+#pragma CPROVER check disable "pointer-primitive"
+#pragma CPROVER check disable "pointer-overflow"
+#pragma CPROVER check disable "bounds"
+static _Bool xv_hash_differs(const uint8_t *a, const uint8_t *b)
+{
+    const uint64_t *x = (const uint64_t *)a, *y = (const uint64_t *)b;
+    return x[0] != y[0] || x[1] != y[1] || x[2] != y[2] || x[3] != y[3];
+}
+#pragma CPROVER check pop
 static pthread_mutex_t *xv_lk_the_mutex(void) { return &cache.lock; }
 static void xv_lk_check_untouched(void)
 {
@@ -442,7 +590,7 @@ static void xv_lk_others_ran_acquire(void)
         e1 = malloc(sizeof(*e1)); __CPROVER_assume(e1 != NULL);
         e1->ssl_ctx = xv_ctx_any();
         __CPROVER_assume(e1->use_cnt >= 1 && e1->use_cnt < INT_MAX);
-        __CPROVER_assume(memcmp(e0->hash, e1->hash, 32) != 0);
+        __CPROVER_assume(xv_hash_differs(e0->hash, e1->hash));
     }
     if (mine) {
         struct cache_entry *m = (n == 2 && nondet_bool()) ? e1 : e0;
@@ -477,8 +625,8 @@ static void xv_lk_check_invariant(void)
     __CPROVER_assert(c == NULL || (c->use_cnt >= 1 && c->ssl_ctx != NULL), "PO[C15,C08] cache.inv_use_cnt_at_least_1_third_entry");
     __CPROVER_assert(b == NULL || a->ssl_ctx != b->ssl_ctx, "PO[C15,C18] cache.inv_contexts_distinct_12");
     __CPROVER_assert(c == NULL || (a->ssl_ctx != c->ssl_ctx && b->ssl_ctx != c->ssl_ctx), "PO[C15,C18] cache.inv_contexts_distinct_3");
-    __CPROVER_assert(b == NULL || memcmp(a->hash, b->hash, 32) != 0, "PO[C15,C18] cache.inv_hashes_distinct_12");
-    __CPROVER_assert(c == NULL || (memcmp(a->hash, c->hash, 32) != 0 && memcmp(b->hash, c->hash, 32) != 0), "PO[C15,C18] cache.inv_hashes_distinct_3");
+    __CPROVER_assert(b == NULL || xv_hash_differs(a->hash, b->hash), "PO[C15,C18] cache.inv_hashes_distinct_12");
+    __CPROVER_assert(c == NULL || (xv_hash_differs(a->hash, c->hash) && xv_hash_differs(b->hash, c->hash)), "PO[C15,C18] cache.inv_hashes_distinct_3");
     __CPROVER_assert(xv_ctx_dead == NULL || ((a == NULL || a->ssl_ctx != xv_ctx_dead) && (b == NULL || b->ssl_ctx != xv_ctx_dead) && (c == NULL || c->ssl_ctx != xv_ctx_dead)), "PO[C08,C18] cache.inv_no_freed_context_listed");
     if (xv_my_ctx != NULL && xv_my_refs_after >= 1)
         __CPROVER_assert((a != NULL && a->ssl_ctx == xv_my_ctx && a->use_cnt >= xv_my_refs_after) ||
